@@ -81,9 +81,10 @@ def flush(tree):
         raise Untranslatable("_flush_results_buffer: expected `limit = ...` "
                              "followed by one while loop")
     init, loop = body
-    if ast.unparse(init.targets[0]) != 'limit' or len(init.targets) != 1:
+    if len(init.targets) != 1 or not isinstance(init.targets[0], ast.Name):
         raise Untranslatable("_flush_results_buffer: first statement must "
-                             "assign `limit`")
+                             "assign the batch-size local")
+    lim = init.targets[0].id            # `limit`, whatever it is called
     tr = Tr(attrs={'QueueTransitBuffer.MAX': 'transit_max'})
     t_init, ty = tr.expr(init.value)
     if ty != 'Z':
@@ -100,7 +101,7 @@ def flush(tree):
             ast.unparse(tr_.handlers[0].type) != 'IndexError':
         raise Untranslatable("_flush_results_buffer: expected try/except "
                              "IndexError only")
-    names = {'limit': 'limit'}
+    names = {lim: 'limit'}
     slices = [n for n in ast.walk(tr_) if isinstance(n, ast.Subscript)
               and ast.unparse(n.value) == 'self.results_buffer']
     sl = _one(slices, "subscript of self.results_buffer").slice
@@ -127,11 +128,11 @@ def flush(tree):
     t_pop, _ = Tr(names=names).expr(pbody[0].value.args[0])
     hbody = _strip_logs(tr_.handlers[0].body)
     if len(hbody) != 1 or not isinstance(hbody[0], ast.AugAssign) or \
-            ast.unparse(hbody[0].target) != 'limit':
+            ast.unparse(hbody[0].target) != lim:
         raise Untranslatable("_flush_results_buffer: the IndexError handler "
                              "must be one `limit <op>= <expr>`")
     t_h, _ = Tr(names=names).expr(
-        ast.BinOp(left=ast.Name(id='limit', ctx=ast.Load()),
+        ast.BinOp(left=ast.Name(id=lim, ctx=ast.Load()),
                   op=hbody[0].op, right=hbody[0].value))
     return (
         f"(* {ast.unparse(init)} *)\n"
